@@ -361,7 +361,7 @@ def is_substantive(op) -> bool:
         return True
     if kind == "write" and data:
         # frame content: letters, colours, graphics commands
-        if any(c.isalpha() and c not in "ABCDHJKXhlm" for c in _strip_csi(data)):
+        if any(c.isalpha() for c in _strip_csi(data)):  # (CSI sequences are stripped first)
             return True
         if "\x1b_G" in data or "\x1b]1337" in data or "\x1b[48;2" in data or "\x1b[38;2" in data:
             return True
